@@ -57,7 +57,8 @@ Definition close_spanning (s : st) : st := fold_left (fun a sc => end_markup_blo
 Definition begin_phrasing (nospace : bool) (s : st) : st :=
   if par s then (if ws s && negb nospace then w (if inl s then [32] else [10]) s else s)
   else
-    let s1 := if negb (inl s) && negb (scope_verse s) then reopen_spanning (begin_paragraph s) else s in
+    let s1 := if negb (inl s) && negb (scope_verse s) then reopen_spanning (begin_paragraph s)
+              else if negb (inl s) then err "found verse text outside of It scope" s else s in
     s1 <| par := true |>.
 
 Definition warn_unclosed (sc : scope) (s : st) : st := err "unclosed scope" s.
@@ -142,7 +143,7 @@ Fixpoint closers (fuel : nat) : (st -> st) * (st -> st) * (string -> st -> st) :
     let close_unclosed_blocks (mname : string) (s : st) : st :=
       let scopes := sblock s in
       if Nat.leb (List.length scopes) 1 then s else
-      if negb (existsb (fun sc => str_eqb (sc_macro sc) (runes mname)) scopes) then s else
+      if negb (existsb (fun sc => str_eqb (sc_macro sc) (runes mname) || (String.eqb mname "It" && str_eqb (sc_macro sc) (R "Bl"))) scopes) then s else
       match top scopes with
       | None => s
       | Some t0 =>
@@ -201,7 +202,11 @@ Fixpoint closers (fuel : nat) : (st -> st) * (st -> st) * (string -> st -> st) :
           else (if par s4 then err "unexpected accumulated text" s4 else s4) in
         let s6 :=
           if str_eqb tag (R "verse") then
-            end_verse (end_stanza ((close_unclosed_inline (process_paragraph s5)) <| verse := false |>))
+            end_verse ((if par s5 then
+                          let vl := verse s5 in
+                          let x := close_unclosed_inline (process_paragraph s5) in
+                          if vl then end_stanza x else end_paragraph PNormal x
+                        else s5) <| verse := false |>)
           else if str_eqb tag (R "desc") then end_desc_list (end_desc_value (end_par PItem s5))
           else if str_eqb tag (R "enum") then end_enum_list (end_item (close_unclosed_inline (end_par PItem s5)))
           else if str_eqb tag (R "item") then end_item_list (end_item (close_unclosed_inline (end_par PItem s5)))
